@@ -92,7 +92,10 @@ class Reader:
         if d:
             time.sleep(d)
         if fid in self.fail:
-            raise ReadFailure("cannot read file %d" % fid)
+            # exceptions come with all kinds of arguments (OSError(errno,
+            # text), KeyError(4), none at all)
+            raise ReadFailure(*[("cannot read file %d" % fid,), (fid,),
+                                (2, "cannot read file", fid), ()][fid % 4])
         return fid
 
 
